@@ -23,6 +23,12 @@ def _od():
     # second variables of the same types so that a type can be mapped twice
     for code in (0x01, 0x05):
         od.add_object(C.mkvar("%s value 2" % S301.NAMES[code], 0x2200 + code, 0, code, "rw"))
+    # names as the documentation uses them: a record with members, and a plain name that happens to read as a
+    # hexadecimal number
+    od.add_object(C.mkrecord("Application Status", 0x2300, [C.mkvar("n", 0x2300, 0, C.U8, "ro", default=2),
+                                                            C.mkvar("Status All", 0x2300, 1, C.U8, "rw"),
+                                                            C.mkvar("Actual Speed", 0x2300, 2, 0x03, "rw")]))
+    od.add_object(C.mkvar("Feed", 0x2310, 0, C.U16, "rw"))
     return od
 
 
@@ -115,6 +121,46 @@ def roundtrip(layout):
              and rig.consumer.tpdo[1][cvars[1].index] is cvars[1],
              "lookup by number, index and name", tag + "/lookup")
     sx.reach("roundtrip")
+
+
+def named_lookup():
+    """the documented way: variables mapped and looked up by name ('Group', 'Member' / 'Group.Member' / plain name)"""
+    rig = Rig()
+    pm = rig.producer.tpdo[1]
+    cm = rig.consumer.tpdo[1]
+    cob = sx.fresh_int("cob", 0x181, 0x57F)
+    for m in (pm, cm):
+        m.clear()
+        m.add_variable("Application Status", "Status All")
+        m.add_variable("Application Status", "Actual Speed")
+        m.add_variable("Feed")
+        m.cob_id = cob
+        m.enabled = True
+        m.subscribe()
+    st = sx.fresh_int("status", 0, 255)
+    sp = sx.fresh_int("speed", -(1 << 15), (1 << 15) - 1)
+    fd = sx.fresh_int("feed", 0, 0xFFFF)
+    tag = "C15/named"
+    try:
+        pm["Application Status.Status All"].raw = st
+        rig.producer.tpdo["Application Status.Actual Speed"].raw = sp
+        pm["Feed"].raw = fd
+        pm.transmit()
+        got = (cm["Application Status.Status All"].raw, rig.consumer.tpdo["Application Status.Actual Speed"].raw,
+               rig.consumer.tpdo["Feed"].raw, cm[0x2310].raw, cm["2310"].raw, cm[2].raw)
+    except Exception as e:
+        sx.observe("exc", C.exc_name(e))
+        sx.fail("lookup of a mapped variable by its name raised %s" % C.exc_name(e), tag + "/raises")
+        return
+    sx.observe("got", list(got))
+    sx.prove((got[0] == st) & (got[1] == sp) & (got[2] == fd) & (got[3] == fd) & (got[4] == fd) & (got[5] == fd),
+             "values read through names, index, hex string and position", tag + "/values")
+    try:
+        cm["No such name"]
+        sx.fail("unknown name found", tag + "/unknown")
+    except KeyError:
+        pass
+    sx.reach("named")
 
 
 def collide():
@@ -330,7 +376,7 @@ def sequence(k, s0=None, s1=None):
 
 
 def jobs(tier):
-    out = []
+    out = [dict(func="named_lookup", params={})]
     for layout in ("suite", "aligned", "straddle", "odd"):
         out.append(dict(func="roundtrip", params=dict(layout=layout), weight=5))
     out.append(dict(func="collide", params={}))
@@ -368,7 +414,7 @@ META = dict(
                     "for PDO maps in this harness (frame format is C10's business)"],
     assumptions=["producer and consumer are configured with the same mapping by the harness"],
     stubs=["struct", "threading.Condition", "Network.send_message replaced by a loopback", "logging"],
-    required_reach=["roundtrip", "collide-hit", "collide-miss", "collide-both", "wait-hit", "wait-timeout", "threads-woken", "threads-timeout", "rtr-sent",
+    required_reach=["named", "roundtrip", "collide-hit", "collide-miss", "collide-both", "wait-hit", "wait-timeout", "threads-woken", "threads-timeout", "rtr-sent",
                     "rtr-suppressed", "rtr-od-sent", "rtr-od-suppressed", "collide-disabled", "seq-transmit", "seq-foreign", "seq-reconfigure", "sequence"],
     limits=dict(quick=dict(max_decisions=20000), thorough=dict(max_decisions=50000)),
     validate_every=dict(quick=5, thorough=31),
